@@ -83,6 +83,12 @@ OUT_TEXTS = ['', 'out', 'line1\nline2\n', 'no final newline', 'ünï 日本\n', 
              'MiXeD q0 aAbB\n', '\n', ' lead and trail \n']
 
 
+# what a program run as an INSTRUCTION writes on stderr (Exactly reads it for its error message when the exit code is
+# not 0); lone surrogates stand for bytes that are not valid UTF-8 (surrogateescape)
+INSTR_ERR_TEXTS = ['', 'plain err\n', '\udcff\udcfe not utf-8\n', 'ünï 日本\n', 'cut \udcc3', 'x' * 5000 + '\n',
+                   '\udc80\udc81' * 300, 'l1\nl2\nl3\n' * 40]
+
+
 # =====================================================================================================
 # cases: light descriptors; the AST is built deterministically from the descriptor in the worker
 # =====================================================================================================
@@ -770,7 +776,7 @@ def _fam_rc(b, d):
         form = ['run', 'pct', 'shell'][rc % 3]
         phase = PHASES[(rc // 3) % 4]
         ignore = form == 'run' and (rc // 12) % 2 == 1
-        sp = b.spec(rc=rc, stdin=False)
+        sp = b.spec(rc=rc, stdin=False, err=INSTR_ERR_TEXTS[(rc // 2) % len(INSTR_ERR_TEXTS)])
         if phase != 'setup':
             _simple_act(b, rc=(rc * 7) % 256)
         if form == 'run':
